@@ -60,3 +60,28 @@ pub broadcast axiom fn axiom_vec_i64_len(v: Vec<i64>) ensures #[trigger] v@.len(
 pub broadcast axiom fn axiom_slice_vec_i64_len(s: &[Vec<i64>]) ensures #[trigger] s@.len() <= 0x0555_5555_5555_5555;
 pub assume_specification<Idx: Clone> [<core::ops::Range<Idx> as Clone>::clone] (r: &core::ops::Range<Idx>) -> (o: core::ops::Range<Idx>)
     ensures cloned(r.start, o.start), cloned(r.end, o.end);
+// ---- more T-std specs (so that plausible edits of the verified functions stay inside the verifier's reach)
+pub open spec fn wrap64(x: int) -> i64 { ((((x + 0x8000_0000_0000_0000) % 0x1_0000_0000_0000_0000) - 0x8000_0000_0000_0000) as i64) }
+pub open spec fn tdiv(a: int, b: int) -> int { vstd::arithmetic::div_mod::rust_div(a, b) }
+pub open spec fn trem(a: int, b: int) -> int { vstd::arithmetic::div_mod::rust_rem(a, b) }
+pub assume_specification [i64::wrapping_div] (a: i64, b: i64) -> (r: i64) requires b != 0,
+    ensures r == (if a == i64::MIN && b == -1 { i64::MIN } else { tdiv(a as int, b as int) as i64 });
+pub assume_specification [i64::wrapping_rem] (a: i64, b: i64) -> (r: i64) requires b != 0,
+    ensures r == (if a == i64::MIN && b == -1 { 0i64 } else { trem(a as int, b as int) as i64 });
+pub assume_specification [i64::wrapping_neg] (a: i64) -> (r: i64) ensures r == (if a == i64::MIN { i64::MIN } else { (-a) as i64 });
+pub assume_specification [i64::wrapping_abs] (a: i64) -> (r: i64) ensures r == (if a == i64::MIN { i64::MIN } else if a < 0 { (-a) as i64 } else { a });
+pub assume_specification [i64::checked_neg] (a: i64) -> (r: Option<i64>) ensures r == (if a == i64::MIN { None::<i64> } else { Some((-a) as i64) });
+pub assume_specification [i64::checked_abs] (a: i64) -> (r: Option<i64>) ensures r == (if a == i64::MIN { None::<i64> } else if a < 0 { Some((-a) as i64) } else { Some(a) });
+pub assume_specification [i64::saturating_add] (a: i64, b: i64) -> (r: i64)
+    ensures r == (if a + b < i64::MIN { i64::MIN } else if a + b > i64::MAX { i64::MAX } else { (a + b) as i64 });
+pub assume_specification [i64::saturating_mul] (a: i64, b: i64) -> (r: i64)
+    ensures r == (if a * b < i64::MIN { i64::MIN } else if a * b > i64::MAX { i64::MAX } else { (a * b) as i64 });
+pub assume_specification [i64::overflowing_add] (a: i64, b: i64) -> (r: (i64, bool))
+    ensures r.1 == !(i64::MIN <= a + b <= i64::MAX), r.0 == wrap64(a + b);
+pub assume_specification [i64::is_negative] (a: i64) -> (r: bool) ensures r == (a < 0);
+pub assume_specification [i64::signum] (a: i64) -> (r: i64) ensures r == (if a < 0 { -1i64 } else if a == 0 { 0i64 } else { 1i64 });
+pub assume_specification [i64::abs_diff] (a: i64, b: i64) -> (r: u64) ensures r == (if a >= b { a - b } else { b - a });
+#[verifier::allow(undeclared_external_trait)]
+pub assume_specification<T> [core::option::Option::<T>::or] (a: Option<T>, b: Option<T>) -> (r: Option<T>)
+    where T: core::marker::Destruct,
+    ensures r == (if a is Some { a } else { b });
